@@ -67,6 +67,7 @@ def unit(bits):
     u = VUnit('fp_ops%d' % bits, 'FieldOps add/sub/neg/modp + single-word Montgomery mul, %s instance' % w['S'])
     pre, c = prelude(bits)
     h = 'fp%d_add_sub_full' % bits
+    u.oracle = {'inject': 'src/fp.rs', 'file': 'fp_oracle.rs', 'test': 'verif_oracle_fp::oracle_fp%d' % bits}
     u.paired_kani = {p + '_add': [h], p + '_sub': [h], p + '_neg': [h], p + '_modp': [h]}
     u.raw(pre, 'prelude')
     fmt = dict(P=P, MAX=w['max'], W=W, W2=W2, p=p, R2T=w['R2T'], R=w['R'])
